@@ -274,7 +274,7 @@ def check_bin(r, b, tag):
 
 
 def _is_field(t, name):
-    t = strip(t)
+    t = strip(t, mir.VALUE_PRESERVING)
     return t[0] == "proj" and t[1][0] == "arg" and any(e != "*" and e[0] == "f" and e[3] == name for e in t[2]) and \
         not any(e != "*" and e[0] == "f" and e[3] != name for e in t[2])
 
